@@ -215,6 +215,15 @@ def run(ctx):
             r = [0] + ser_dict(m.parse_receipt())
         except Exception as e:  # noqa: BLE001
             r = [1, common.exn_index(e)]
+        # parsing is a function of the text: a second call on the same object gives the same result - in particular a text that is
+        # refused is refused again, and does not turn into a truncated dictionary
+        try:
+            r2 = [0] + ser_dict(m.parse_receipt())
+        except Exception as e:  # noqa: BLE001
+            r2 = [1, common.exn_index(e)]
+        if r2 != r:
+            ctx.violation(f'parse_receipt() called twice on the same DeliverSm (text {s!r}): first {"raised" if r[0] else "returned a dictionary"}, '
+                          f'then {"raised" if r2[0] else "returned " + repr(m.parse_receipt())}', {'function': 'parse_twice', 'text': s, 'tlv': tlv})
         cases.append((f'(4, {core.cstr(s)}, {core.copt(tlv, core.cstr)})', czl(r)))
         ctx.case(('mal', s, tlv), nontrivial=len(s) > 0)
     # date strings through strptime directly (field-width ambiguity)
@@ -226,6 +235,13 @@ def run(ctx):
             r = [0] + ser_dict(m.parse_receipt())
         except Exception as e:  # noqa: BLE001
             r = [1, common.exn_index(e)]
+        try:
+            r2 = [0] + ser_dict(m.parse_receipt())
+        except Exception as e:  # noqa: BLE001
+            r2 = [1, common.exn_index(e)]
+        if r2 != r:
+            ctx.violation(f'parse_receipt() called twice on a DeliverSm whose submit date is {s!r}: first {"raised" if r[0] else "returned"}, then '
+                          f'{"raised" if r2[0] else "returned " + repr(m.parse_receipt())}', {'function': 'parse_twice', 'text': m.short_message, 'tlv': None})
         cases.append((f'(4, {core.cstr(m.short_message)}, None)', czl(r)))
         ctx.case(('date', s))
     ctx.count('malformed_texts', nm)
